@@ -338,14 +338,22 @@ def compress (tol : Rat) (A : Op) : Op :=
     let c2 : GQ := if c1.re * c1.re ≤ tol * tol then ⟨0, c1.im⟩ else c1
     if c2.normSq > tol * tol then some (t, c2) else none
 
+/-- exact regime of `compress`: every real and imaginary part is zero or above the tolerance
+(nothing is truncated, only exact zeros are dropped) -/
+def compressExactB (tol : Rat) (A : Op) : Bool :=
+  A.all fun e => (e.2.im == 0 || decide (e.2.im * e.2.im > tol * tol)) &&
+    (e.2.re == 0 || decide (e.2.re * e.2.re > tol * tol))
+
+/-- the dictionary `edit_hamiltonian_for_spin` builds before it calls `compress` -/
+def editRaw (A : Op) (spinOrbital : Nat) (parity : GQ) : Op :=
+  A.foldl (fun (acc : Op) (e : Term × GQ) =>
+    if spinOrbital ≥ 1 ∧ e.1.contains (spinOrbital - 1, 3) then
+      accum acc (e.1.filter fun f => f ≠ (spinOrbital - 1, 3)) (e.2 * parity)
+    else accum acc e.1 e.2) []
+
 /-- `edit_hamiltonian_for_spin(qubit_hamiltonian, spin_orbital, orbital_parity)` -/
 def editHamiltonianForSpin (tol : Rat) (A : Op) (spinOrbital : Nat) (parity : GQ) : Op :=
-  let d := A.foldl (fun (acc : Op) (e : Term × GQ) =>
-    let (term, c) := e
-    if spinOrbital ≥ 1 ∧ term.contains (spinOrbital - 1, 3) then
-      accum acc (term.filter fun f => f ≠ (spinOrbital - 1, 3)) (c * parity)
-    else accum acc term c) []
-  compress tol d
+  compress tol (editRaw A spinOrbital parity)
 
 /-- `new_index` of `remove_indices`: `index - len([i for i in indices if (i - 1) < index])` -/
 def newIndex (indices : List Nat) (j : Nat) : Nat := j - (indices.filter fun i => i < j + 1).length
@@ -364,6 +372,14 @@ def scbkReduce (tol : Rat) (A : Op) (n fermions : Nat) : Op :=
   let A1 := editHamiltonianForSpin tol A n pFinal
   let A2 := editHamiltonianForSpin tol A1 (n / 2) pMiddle
   removeIndices A2 [n / 2, n]
+
+/-- exact regime of `symmetry_conserving_bravyi_kitaev`'s reduction: both `compress` calls exact -/
+def scbkExact (tol : Rat) (A : Op) (n fermions : Nat) : Bool :=
+  let r := fermions % 4
+  let pFinal : GQ := if r = 0 ∨ r = 2 then 1 else -1
+  let pMiddle : GQ := if r = 0 ∨ r = 3 then 1 else -1
+  compressExactB tol (editRaw A n pFinal) &&
+    compressExactB tol (editRaw (editHamiltonianForSpin tol A n pFinal) (n / 2) pMiddle)
 
 end C16
 end Model
